@@ -389,7 +389,17 @@ func (r *Runner) finalChecks() {
 		}
 		w.ViolateLocked("C17", rule, sig, "%s #%d on %s invoked at %d ms is unresolved %d ms later (server state %v)", op.Kind, op.ID, op.Srv, op.InvokeMs, age, st)
 	}
-	// C20/R3: aborted calls leave no trace (in the final, converged state)
+	// C20/R3: aborted calls leave no trace (in the final, converged state of
+	// the members of the leader's configuration)
+	member := map[string]bool{}
+	for _, id := range r.ids {
+		if in := w.Servers[id].Inst; in != nil && !in.DeadLocked() && in.R != nil && in.R.State() == raft.Leader {
+			cfg, _ := sim.LatestCfgInDisk(in.DiskLocked(), false)
+			for _, s := range cfg.Servers {
+				member[string(s.ID)] = true
+			}
+		}
+	}
 	for _, op := range r.Ops {
 		if !r.atRest {
 			break
@@ -400,7 +410,7 @@ func (r *Runner) finalChecks() {
 		r.feat("aborted-by-restore")
 		for _, id := range r.ids {
 			in := w.Servers[id].Inst
-			if in == nil || in.DeadLocked() {
+			if in == nil || in.DeadLocked() || !member[id] {
 				continue
 			}
 			for _, p := range in.FSM.State.Payloads {
